@@ -164,7 +164,33 @@ pub fn run(op: &str, args: &[String]) -> Option<String> {
                 Ok(sg2) => rec(&sg2),
                 Err(_) => "E",
             };
-            format!("OK:{};{};{};{};{};{};{};{}", hex::encode(cb), v1, v2, v3, i1, i2, r1, r2)
+            // the signer's address through EVERY public route, re-prefixed; each must accept, all must be equal objects
+            let cp = chain(p);
+            let pk2 = bsv::PublicKey::from_private_key(&k);
+            let routes: Vec<Option<P2PKHAddress>> = vec![
+                pk.to_p2pkh_address().ok().and_then(|x| x.set_chain_params(&cp).ok()),
+                pk2.to_p2pkh_address().ok().and_then(|x| x.set_chain_params(&cp).ok()),
+                P2PKHAddress::from_pubkey(&pk).ok().and_then(|x| x.set_chain_params(&cp).ok()),
+                P2PKHAddress::from_pubkey(&pk2).ok().and_then(|x| x.set_chain_params(&cp).ok()),
+                P2PKHAddress::from_pubkey_hash(&bsv::Hash::hash_160(&k.get_point()).to_bytes()).ok().and_then(|x| x.set_chain_params(&cp).ok()),
+                a.to_string().ok().and_then(|t| P2PKHAddress::from_string(&t).ok()),
+                bsv::PublicKey::from_hex(&pk.to_hex().unwrap_or_default()).ok().and_then(|q| q.to_p2pkh_address().ok()).and_then(|x| x.set_chain_params_impl(&cp).ok()),
+            ];
+            let mut rv = String::new();
+            let mut same = true;
+            for r in &routes {
+                match r {
+                    Some(x) => {
+                        rv.push_str(show_v(BSM::verify_message(&msg, &sg, x)));
+                        same = same && *x == a;
+                    }
+                    None => {
+                        rv.push('N');
+                        same = false;
+                    }
+                }
+            }
+            format!("OK:{};{};{};{};{};{};{};{};{};{}", hex::encode(cb), v1, v2, v3, i1, i2, r1, r2, rv, same as u8)
         }
         "bsm.verify" => {
             let msg = need!(arg_bytes(args, 0));
